@@ -34,12 +34,16 @@ impl<SE: extensions::ShellExtensions> crate::Shell<SE> {
         params: &crate::interp::ExecutionParameters,
         command: S,
     ) {
-        // Expand the PS4 prompt variable to get our prefix.
+        // Expand the PS4 prompt variable to get our prefix. Commands run by that expansion
+        // (e.g., a command substitution in PS4) are not traced themselves -- tracing them
+        // would expand PS4 again, without end.
+        let saved_xtrace = std::mem::replace(&mut self.options.print_commands_and_arguments, false);
         let mut prefix = self
             .as_mut()
             .expand_prompt_var("PS4", "")
             .await
             .unwrap_or_default();
+        self.options.print_commands_and_arguments = saved_xtrace;
 
         // Add additional depth-based prefixes using the first character of PS4.
         let additional_depth = self.call_stack.script_source_depth() + self.depth;
